@@ -194,7 +194,7 @@ def find_skip_test(prog: Program, fn: Func):
 
 
 # ------------------------------------------------------------------------------------------------ the check
-LATER_RULES = ' Later rules: R20.1/R20.2 identify the skip test by interpreting it on probe files (sa/strexpr.py) and require all 49 skip_file probes to be recognised; R20.5 also decides what a line is (tokenizer lines); (R20.8) the sink gets the text as returned. (R20.9) a fast path of has_ignore_comment that answers no before the lines are examined tests for a text every match of the pattern contains (mandatory factor of the regex AST).'
+LATER_RULES = ' Later rules: R20.1/R20.2 identify the skip test by interpreting it on probe files (sa/strexpr.py) and require all 49 skip_file probes to be recognised; R20.5 also decides what a line is (tokenizer lines); (R20.8) the sink gets the text as returned. (R20.10) = C10 R10.0, the overlap predicate (insertions inside an annotated line); (R20.11) = C03 R3.9, a widened deletion does not cross a line break; (R20.9) a fast path of has_ignore_comment that answers no before the lines are examined tests for a text every match of the pattern contains (mandatory factor of the regex AST).'
 
 
 def check(prog: Program, tier: str) -> Result:
@@ -225,12 +225,18 @@ def check(prog: Program, tier: str) -> Result:
     _r20_3(prog, res, tf)
     # mechanisms owned by other properties that the opt-out promises depend on
     from . import c03 as _c03, c10 as _c10
-    res.adopt(_c10.check(prog, tier), {"R10.6"}, "R20.6",
+    c10_result = _c10.check(prog, tier)
+    c03_result = _c03.check(prog, tier)
+    res.adopt(c10_result, {"R10.6"}, "R20.6",
               "scheduled rewrites honour `# pyrefact: ignore` only because the scheduler refuses a transaction when ANY of its ranges touches an annotated line")
-    res.adopt(_c03.check(prog, tier), {"R3.2"}, "R20.7",
+    res.adopt(c03_result, {"R3.2"}, "R20.7",
               "a `# pyrefact: skip_file` file stays byte-identical only if the file entry points write nothing when the text is unchanged (text-mode reading normalises line ends)")
+    res.adopt(c10_result, {"R10.0"}, "R20.10",
+              "has_ignore_comment decides with the overlap predicate which lines a range touches: an insertion (empty range) strictly inside an annotated line must count as touching it")
+    res.adopt(c03_result, {"R3.9"}, "R20.11",
+              "a deletion that is widened by a regex match behind it must not run over a line break: the line it would reach was never tested for an ignore comment")
     _r20_8(prog, res)
-    res.floors.update({"R20.8": 1, "R20.1": 10, "R20.2": 1, "R20.3": 6, "R20.5": 3, "R20.6": 1, "R20.7": 1})
+    res.floors.update({"R20.8": 1, "R20.1": 10, "R20.2": 1, "R20.3": 6, "R20.5": 3, "R20.6": 1, "R20.7": 1, "R20.10": 1, "R20.11": 1})
     return res
 
 
